@@ -141,7 +141,7 @@ ObjVerdict(e, heap, Want) ==
              [] e.op = "cmp"      -> IF w18 THEN CmpVerdict(e) ELSE {}
              [] e.op = "ordinal"  -> IF w18 THEN OrdinalVerdict(e) ELSE {}
              [] e.op = "sorted"   -> IF w18 THEN SortedVerdict(e) ELSE {}
-             [] e.op \in {"hash", "api", "assign"} -> {}
+             [] e.op \in {"hash", "api", "assign", "setattr"} -> {}
              [] OTHER             -> {"bind.unknown_op:" \o e.op}
   IN  [fails |-> f, cls |-> {"op=" \o e.op} \cup (IF e.out.kind = "ok" THEN {"ok"} ELSE {"raise:" \o e.out.exc}), X |-> <<>>]
 
